@@ -200,7 +200,8 @@ func genLine(t *rapid.T, o textOpts) string {
 		n := rapid.SampledFrom([]int{253, 254, 255, 256, 257, 1023, 1024, 4094, 4095, 4096, 4097, 8192}).Draw(t, "boundarylen")
 		return strings.Repeat(rapid.SampledFrom([]string{"y", "-", "é"}).Draw(t, "boundarych"), n)[:n]
 	case k < 72 && o.long:
-		n := rapid.SampledFrom([]int{65535, 65536, 65537, 70000, 131073}).Draw(t, "longlen")
+		// (64 KiB and just around it; now and then a line beyond 1 MiB / 4 MiB: a base64 blob, a minified bundle)
+		n := rapid.SampledFrom([]int{65535, 65536, 65537, 70000, 131073, 65536, 65537, 131073, 70000, 1<<20 + 5, 4<<20 + 3}).Draw(t, "longlen")
 		return strings.Repeat(rapid.SampledFrom([]string{"x", "-", "ab"}).Draw(t, "longch"), n)[:n]
 	case k < 85:
 		s := rapid.StringN(0, 12, -1).Draw(t, "str")
